@@ -38,7 +38,7 @@ import ast
 import re
 from typing import Dict, List, Optional, Set, Tuple
 
-from ..cfg import cfg_of
+from ..cfg import Origin, atoms, cfg_of, origins
 from ..index import (
     AnalysisError,
     FuncNode,
@@ -92,6 +92,144 @@ def rx_top_groups(pattern: str) -> Tuple[Optional[List[int]], str]:
     if groups != list(range(1, len(groups) + 1)):
         return None, "capturing groups are nested or not numbered 1..n at top level"
     return groups, ""
+
+
+# ---------------------------------------------------------------------------
+# resolution of locals (decide on what a name holds, not on how it is spelled)
+# ---------------------------------------------------------------------------
+
+def _resolve(func, e: ast.AST, at):
+    """(expression, statement it is evaluated at) for a plain local that has exactly one
+    reaching definition, itself an expression; everything else is returned unchanged."""
+    if isinstance(e, ast.Name) and at is not None:
+        os_ = origins(cfg_of(func), e, at)
+        if len(os_) == 1 and os_[0].kind == "expr" and not os_[0].path and os_[0].stmt is not None:
+            return os_[0].expr, os_[0].stmt
+    return e, at
+
+
+def _single_use(func, name: ast.Name) -> bool:
+    """The local is read exactly once in the function (so a mutable display bound to it
+    cannot have been changed or shared between its definition and that use)."""
+    return sum(1 for n in walk_local(func) if isinstance(n, ast.Name) and n.id == name.id and isinstance(n.ctx, ast.Load)) == 1
+
+
+def _resolve_display(func, e: ast.AST, at):
+    """Like _resolve, for a list display: through a local only if that local has no other use."""
+    if isinstance(e, ast.Name):
+        r, rat = _resolve(func, e, at)
+        if r is not e and _single_use(func, e):
+            return r, rat
+        return e, at
+    return e, at
+
+
+def _canon(func, e: ast.AST, at) -> str:
+    """Canonical text of a name / attribute chain: a local that can only hold a parameter, or
+    another chain, is replaced by it (``anchor = segment`` -> 'segment')."""
+    if isinstance(e, ast.Attribute):
+        return _canon(func, e.value, at) + "." + e.attr
+    if isinstance(e, ast.Name) and at is not None:
+        os_ = origins(cfg_of(func), e, at)
+        if os_ and all(o.kind == "param" for o in os_) and len({o.expr.arg for o in os_}) == 1:
+            return os_[0].expr.arg
+        if len(os_) == 1 and os_[0].kind == "expr" and not os_[0].path and isinstance(os_[0].expr, ast.Attribute) and os_[0].stmt is not None:
+            return _canon(func, os_[0].expr, os_[0].stmt)
+        return e.id
+    return norm(e)
+
+
+def _param_of(func, e: ast.AST, at) -> Optional[str]:
+    """Name of the parameter a plain name can only be (unmodified, possibly through locals)."""
+    if isinstance(e, ast.Name) and at is not None:
+        os_ = origins(cfg_of(func), e, at)
+        if os_ and all(o.kind == "param" for o in os_) and len({o.expr.arg for o in os_}) == 1:
+            return os_[0].expr.arg
+    return None
+
+
+def _module_constant(module, name: str) -> Optional[ast.AST]:
+    """Value of a module-level name bound exactly once, by a plain top-level assignment."""
+    vals = []
+    for n in ast.walk(module.tree):
+        if isinstance(n, ast.Global) and name in n.names:
+            return None
+    for n in module.tree.body:
+        if isinstance(n, ast.Assign):
+            names = [x.id for t in n.targets for x in ast.walk(t) if isinstance(x, ast.Name)]
+            if name in names:
+                if len(n.targets) != 1 or not isinstance(n.targets[0], ast.Name):
+                    return None
+                vals.append(n.value)
+        elif isinstance(n, (ast.AnnAssign, ast.AugAssign)) and isinstance(n.target, ast.Name) and n.target.id == name:
+            if isinstance(n, ast.AugAssign) or n.value is None:
+                return None
+            vals.append(n.value)
+        elif not isinstance(n, (ast.Import, ast.ImportFrom, ast.Expr) + FuncNode + (ast.ClassDef,)):
+            # a binding inside a top-level if/try/for/with: not a constant we can name
+            if any(isinstance(x, ast.Name) and x.id == name and isinstance(x.ctx, ast.Store) for x in ast.walk(n)):
+                return None
+    return vals[0] if len(vals) == 1 else None
+
+
+def _value_of_name(func, e: ast.AST, at):
+    """Expression behind a name: local with one definition, else module-level constant."""
+    if not isinstance(e, ast.Name):
+        return e, at
+    r, rat = _resolve(func, e, at)
+    if r is not e:
+        return r, rat
+    cfg = cfg_of(func)
+    if at is not None and not cfg.reaching().defs_at(at, e.id):
+        v = _module_constant(func._module, e.id)
+        if v is not None:
+            return v, None
+    return e, at
+
+
+def _local_function(func, e: ast.AST, at, repo):
+    """Function definition a plain name refers to: a nested def (its only reaching definition)
+    or a module-level function."""
+    if not isinstance(e, ast.Name):
+        return None
+    ds = cfg_of(func).reaching().defs_at(at, e.id) if at is not None else set()
+    if ds:
+        ds = list(ds)
+        if len(ds) == 1 and ds[0].kind == "def" and isinstance(ds[0].node, FuncNode):
+            return ds[0].node
+        return None
+    r = repo.resolve_name(func._module, e.id)
+    if r and isinstance(r[1], FuncNode):
+        return r[1]
+    return None
+
+
+def _conditions(func, stmt) -> List[Tuple[ast.AST, bool]]:
+    """cfg.conditions with boolean locals opened up: ``skip = a or b`` / ``if skip: continue``
+    gives the same atoms as ``if a or b: continue`` (only when nothing the test reads can have
+    been rebound between the assignment and the branch)."""
+    cfg = cfg_of(func)
+    rd = cfg.reaching()
+    out: List[Tuple[ast.AST, bool]] = []
+    work = list(cfg.conditions(stmt))
+    budget = 50
+    while work and budget:
+        budget -= 1
+        e, pol = work.pop(0)
+        if isinstance(e, ast.Name):
+            at = cfg.stmt_of(e)
+            ds = list(rd.defs_at(at, e.id)) if at is not None else []
+            if len(ds) == 1 and ds[0].kind == "assign" and not ds[0].path and ds[0].value is not None:
+                d = ds[0]
+                stable = all(
+                    {id(x) for x in rd.defs_at(d.stmt, n.id)} == {id(x) for x in rd.defs_at(at, n.id)}
+                    for n in ast.walk(d.value) if isinstance(n, ast.Name)
+                )
+                if stable:
+                    work += atoms(d.value, pol)
+                    continue
+        out.append((e, pol))
+    return out
 
 
 # ---------------------------------------------------------------------------
@@ -164,20 +302,38 @@ def _group_ref(e: ast.AST, m: str) -> Optional[int]:
     return None
 
 
-def _check_sub(call: ast.Call) -> Optional[str]:
-    """None if regex.sub(p, f, x) is a case-homomorphism of x, else the reason."""
-    pat = arg_of(call, 0, "pattern")
-    repl = arg_of(call, 1, "repl")
+def _function_as_lambda(fn) -> Optional[Tuple[ast.arguments, ast.AST]]:
+    """(arguments, returned expression) of a def whose body is one ``return <expr>``
+    (a docstring may precede it): the same thing as a lambda."""
+    body = list(fn.body)
+    if body and isinstance(body[0], ast.Expr) and isinstance(body[0].value, ast.Constant) and isinstance(body[0].value.value, str):
+        body = body[1:]
+    if len(body) == 1 and isinstance(body[0], ast.Return) and body[0].value is not None and not fn.decorator_list:
+        return fn.args, body[0].value
+    return None
+
+
+def _check_sub(pat: Optional[ast.AST], repl: Optional[ast.AST]) -> Optional[str]:
+    """None if substituting ``repl`` for matches of ``pat`` is a case-homomorphism, else the
+    reason.  ``pat``/``repl`` are already resolved (locals and constants opened, a named
+    one-return function given as the def node)."""
     if pat is None or repl is None:
         return "pattern/replacement argument not found"
     refs: Optional[List[int]] = None
+    lam = None
     if isinstance(repl, ast.Lambda):
-        a = repl.args
-        if len(a.args) != 1 or a.vararg or a.kwarg or a.kwonlyargs:
+        lam = (repl.args, repl.body)
+    elif isinstance(repl, FuncNode):
+        lam = _function_as_lambda(repl)
+        if lam is None:
+            return f"replacement function {repl.name}() is not a single return expression"
+    if lam is not None:
+        a, body = lam
+        if len(a.posonlyargs + a.args) != 1 or a.vararg or a.kwarg or a.kwonlyargs:
             return "replacement lambda does not take exactly the match object"
-        m = a.args[0].arg
+        m = (a.posonlyargs + a.args)[0].arg
         refs = []
-        for term in _flatten_add(repl.body):
+        for term in _flatten_add(body):
             inner, _ = _strip_casemaps(term)
             k = _group_ref(inner, m)
             if k is None:
@@ -205,12 +361,45 @@ def _check_sub(call: ast.Call) -> Optional[str]:
     return None
 
 
-def _is_regex_sub(call: ast.Call, module) -> bool:
-    cn = call_name(call)
-    if cn.count(".") != 1 or not cn.endswith(".sub"):
-        return False
-    head = cn.split(".")[0]
-    return module.imports.get(head) in ("re", "regex")
+def _is_regex_module(module, head: str) -> bool:
+    return module.imports.get(head) in ("re", "regex") and head not in module.defs
+
+
+def _regex_sub_parts(ctx, func, call: ast.Call, at):
+    """(pattern, replacement, subject) of ``regex.sub(p, f, x)`` / ``re.sub`` or of
+    ``<compiled>.sub(f, x)`` where <compiled> is a local or module constant bound once to
+    ``regex.compile(<pattern>)`` (no flags); pattern and replacement are resolved through
+    single-definition locals / module constants / named one-return functions.  None when the
+    call is not a regex substitution."""
+    if not (isinstance(call.func, ast.Attribute) and call.func.attr == "sub" and isinstance(call.func.value, ast.Name)):
+        return None
+    module = func._module
+    recv = call.func.value
+    cfg = cfg_of(func)
+    local = bool(at is not None and cfg.reaching().defs_at(at, recv.id))
+    if not local and _is_regex_module(module, recv.id):
+        pat, repl, subj = arg_of(call, 0, "pattern"), arg_of(call, 1, "repl"), arg_of(call, 2, "string")
+        pat_at = at
+    else:
+        comp, pat_at = _value_of_name(func, recv, at)
+        if not (
+            isinstance(comp, ast.Call) and call_name(comp).count(".") == 1 and call_name(comp).endswith(".compile")
+            and _is_regex_module(module, call_name(comp).split(".")[0]) and len(comp.args) == 1 and not comp.keywords
+        ):
+            return None
+        pat, repl, subj = comp.args[0], arg_of(call, 0, "repl"), arg_of(call, 1, "string")
+    if isinstance(pat, ast.Name):
+        if pat_at is not None:
+            pat, _ = _value_of_name(func, pat, pat_at)
+        else:  # the compiled pattern is a module constant: so is whatever it names
+            pat = _module_constant(module, pat.id) or pat
+    if isinstance(repl, ast.Name):
+        fn = _local_function(func, repl, at, ctx.chk.repo)
+        if fn is not None:
+            repl = fn
+        else:
+            repl, _ = _value_of_name(func, repl, at)
+    return pat, repl, subj
 
 
 def evalstr(ctx: Ctx, func, e: ast.AST, at, seen=None, defstmt=None) -> Val:
@@ -232,24 +421,31 @@ def evalstr(ctx: Ctx, func, e: ast.AST, at, seen=None, defstmt=None) -> Val:
             elif d.kind in ("assign", "walrus"):
                 ctx.defs_evaluated += 1
                 if d.path:
-                    out.merge(Val.top(d.node, "value obtained by unpacking", d.stmt))
+                    # ``pair = <loop variable>; a, b = pair``: same as unpacking in the loop header
+                    os_ = origins(cfg, d.value, d.stmt) if isinstance(d.value, ast.Name) else []
+                    if os_ and all(o.kind == "for" and o.stmt is not None for o in os_):
+                        for o in os_:
+                            out.merge(_for_value(ctx, func, o.expr, o.stmt, d.node))
+                    else:
+                        out.merge(Val.top(d.node, "value obtained by unpacking", d.stmt))
                 else:
                     out.merge(evalstr(ctx, func, d.value, d.stmt, seen, d.stmt))
             elif d.kind == "for":
-                out.merge(_for_value(ctx, func, d))
+                out.merge(_for_value(ctx, func, d.value, d.stmt, d.node))
             else:
                 out.merge(Val.top(d.node, f"value defined by '{d.kind}' statement", d.stmt))
         return out
     if isinstance(e, ast.Attribute):
-        return Val.base(norm(e))
+        return Val.base(_canon(func, e, at))
     if isinstance(e, ast.IfExp):
         return evalstr(ctx, func, e.body, at, seen, defstmt).merge(evalstr(ctx, func, e.orelse, at, seen, defstmt))
     if isinstance(e, ast.Call):
         if isinstance(e.func, ast.Attribute) and e.func.attr in CASE_METHODS and not e.args and not e.keywords:
             return evalstr(ctx, func, e.func.value, at, seen, defstmt)
-        if _is_regex_sub(e, module):
-            why = _check_sub(e)
-            s = arg_of(e, 2, "string")
+        parts = _regex_sub_parts(ctx, func, e, at)
+        if parts is not None:
+            why = _check_sub(parts[0], parts[1])
+            s = parts[2]
             if why is not None:
                 return Val.top(e, f"{call_name(e)}: {why}", defstmt)
             if s is None:
@@ -320,13 +516,11 @@ def _inline_call(ctx: Ctx, func, call: ast.Call, at, seen, defstmt, _depth=[0]) 
     return out
 
 
-def _for_value(ctx: Ctx, func, d) -> Val:
-    """Loop variable: accepted only as the native extension's result (see docstring)."""
+def _for_value(ctx: Ctx, func, it: ast.AST, loop, node) -> Val:
+    """Value taken from the items of ``it`` by the loop statement ``loop`` (``node`` is the name
+    bound): accepted only as the native extension's result (see docstring)."""
     cfg = cfg_of(func)
-    it = d.value
-    from ..cfg import origins
-
-    os_ = origins(cfg, it, d.stmt) if isinstance(it, ast.Name) else []
+    os_ = origins(cfg, it, loop) if isinstance(it, ast.Name) else [Origin(it, (), "expr", loop)]
     params = [a.arg for a in func.args.posonlyargs + func.args.args]
     ext = []
     for o in os_:
@@ -350,13 +544,13 @@ def _for_value(ctx: Ctx, func, d) -> Val:
             if ok:
                 ext.append(", ".join(sorted(set(names))))
                 continue
-        v = Val.top(d.node, f"value iterated out of {short(it, 50)!r}", d.stmt)
+        v = Val.top(node, f"value iterated out of {short(it, 50)!r}", loop)
         return v
     if ext and len(ext) == len(os_):
         v = Val()
         v.external = ext
         return v
-    return Val.top(d.node, f"value iterated out of {short(it, 50)!r}", d.stmt)
+    return Val.top(node, f"value iterated out of {short(it, 50)!r}", loop)
 
 
 def _branch_label(func, stmt) -> str:
@@ -438,37 +632,40 @@ def run(chk) -> None:
             kind = cn.split(".", 1)[1] if "." in cn else (c.args[0].value if c.args and isinstance(c.args[0], ast.Constant) else "?")
             if not chk.require(kind == "replace" and cn == "LintFix.replace", "R15a", c, f"capitalisation rule builds a '{kind}' fix; only replace(anchor, [anchor.edit(raw)]) can be a pure case change", detail=f"fix kind: {short(c, 120)}"):
                 continue
+            st = cfg_of(f).stmt_of(c)
             anchor = arg_of(c, 0, "anchor_segment")
-            edit = arg_of(c, 1, "edit_segments")
+            # the list display and the edited copy may each be bound to a local first
+            edit, edit_at = _resolve_display(f, arg_of(c, 1, "edit_segments"), st)
             one = isinstance(edit, ast.List) and len(edit.elts) == 1 and not isinstance(edit.elts[0], ast.Starred)
             if not chk.require(one and anchor is not None, "R15a", c, "replacement is not a list display of exactly one segment (extra or missing segments change more than case)", detail=f"one replacement segment: {short(c, 120)}"):
                 continue
-            ed = edit.elts[0]
+            ed, ed_at = _resolve(f, edit.elts[0], edit_at)
             shape = (
                 isinstance(ed, ast.Call) and isinstance(ed.func, ast.Attribute) and ed.func.attr == "edit"
-                and norm(ed.func.value) == norm(anchor) and isinstance(anchor, ast.Name)
+                and isinstance(ed.func.value, (ast.Name, ast.Attribute)) and isinstance(anchor, ast.Name)
+                and _canon(f, ed.func.value, ed_at) == _canon(f, anchor, st)
                 and len(ed.args) + len(ed.keywords) == 1 and (len(ed.args) == 1 or ed.keywords[0].arg == "raw")
             )
             if not chk.require(shape, "R15a", c, "the replacement is not <anchor>.edit(<raw>) of the very segment being replaced (other segment edited, or more than the raw text set)", detail=f"anchor.edit(raw) of the anchor: {short(c, 120)}"):
                 continue
             raw = ed.args[0] if ed.args else ed.keywords[0].value
-            st = cfg_of(f).stmt_of(c)
-            v = evalstr(ctx, f, raw, st)
+            v = evalstr(ctx, f, raw, ed_at)
             params = [a.arg for a in f.args.posonlyargs + f.args.args]
-            a_defs = cfg_of(f).reaching().defs_at(st, anchor.id)
+            anchor_c = _canon(f, anchor, st)
+            anchor_p = _param_of(f, anchor, st)  # the parameter the anchor can only be (directly or through a local)
             if (
                 not v.tops and not v.external and len(v.bases) == 1 and next(iter(v.bases)) in params
-                and anchor.id in params and all(d.kind == "param" for d in a_defs)
+                and anchor_p in params
             ):
-                builders[id(f)] = (params.index(anchor.id), params.index(next(iter(v.bases))))
+                builders[id(f)] = (params.index(anchor_p), params.index(next(iter(v.bases))))
                 chk.count("R15a.fix_builders")
                 chk.sample({"rule": "R15a", "builder": f"{m.relpath}:{f.lineno} {q}", "returns": short(c, 90)})
                 continue
             # a direct sink: raw must be an image of anchor.raw right here
             _report_val(chk, f, v, f"new raw text {short(raw, 40)!r}", c)
             chk.require(
-                bool(v.tops) or v.bases == {norm(anchor) + ".raw"} or bool(v.external), "R15a", c,
-                f"new raw text derives from {sorted(v.bases)} rather than from {norm(anchor)}.raw", detail=f"base of raw: {short(c, 120)}",
+                bool(v.tops) or v.bases == {anchor_c + ".raw"} or bool(v.external), "R15a", c,
+                f"new raw text derives from {sorted(v.bases)} rather than from {anchor_c}.raw", detail=f"base of raw: {short(c, 120)}",
             )
 
     # ---- 2. builder overrides and all calls of the builder --------------------
@@ -486,9 +683,10 @@ def run(chk) -> None:
                 continue
             st = cfg_of(f).stmt_of(c)
             v = evalstr(ctx, f, r, st)
+            a_c = _canon(f, a, st)  # what the anchor expression holds (a local alias of a parameter is that parameter)
             # pass-through override: def _get_fix(self, segment, fixed_raw): return super()._get_fix(segment, fixed_raw)
-            if f.name == BUILDER and not v.tops and v.bases <= set(params) and len(v.bases) == 1 and isinstance(a, ast.Name) and a.id in params:
-                ai, ri = params.index(a.id), params.index(next(iter(v.bases)))
+            if f.name == BUILDER and not v.tops and v.bases <= set(params) and len(v.bases) == 1 and _param_of(f, a, st) in params:
+                ai, ri = params.index(_param_of(f, a, st)), params.index(next(iter(v.bases)))
                 same_order = (ai, ri) == (1, 2)
                 chk.require(same_order, "R15a", c, "override of the fix builder passes its parameters on in a different order", detail=f"override passes (segment, fixed_raw) through: {short(c, 100)}")
                 builders[id(f)] = (ai, ri)
@@ -504,13 +702,13 @@ def run(chk) -> None:
                     chk.assumptions.append(msg)
                 chk.ok("R15a", construct_of(c), f"external: {short(c, 100)}")
                 continue
-            want = f"{norm(a)}.raw"
+            want = f"{a_c}.raw"
             chk.require(
                 v.bases <= {want} and bool(v.bases or v.tops), "R15a", c,
                 f"the anchor of the fix is '{norm(a)}' but the new text is a case map of {sorted(v.bases)}: the edited segment and the recased text belong to different segments",
                 detail=f"anchor/text agreement: {short(c, 120)}",
             )
-            chk.sample({"rule": "R15a", "call": f"{m.relpath}:{c.lineno}", "anchor": norm(a), "bases": sorted(v.bases), "definitions_evaluated": ctx.defs_evaluated})
+            chk.sample({"rule": "R15a", "call": f"{m.relpath}:{c.lineno}", "anchor": a_c, "bases": sorted(v.bases), "definitions_evaluated": ctx.defs_evaluated})
     # every `fixes=` handed to a LintResult in scope is a list of builder calls
     for m, q, f in funcs:
         for c in walk_local(f):
@@ -519,7 +717,12 @@ def run(chk) -> None:
                 if fx is None:
                     continue
                 chk.count("R15a.lintresult_fix_lists")
-                ok = isinstance(fx, ast.List) and all(isinstance(x, ast.Call) and last_attr(x) == BUILDER for x in fx.elts)
+                # the list, and each fix in it, may be bound to a local before the result is built
+                st = cfg_of(f).stmt_of(c)
+                fl, fl_at = _resolve_display(f, fx, st)
+                ok = isinstance(fl, ast.List) and all(
+                    isinstance(x, ast.Call) and last_attr(x) == BUILDER for x in (_resolve(f, y, fl_at)[0] for y in fl.elts)
+                )
                 chk.require(ok, "R15a", c, f"LintResult in a capitalisation rule carries fixes not built by {BUILDER}(): {short(fx, 60)}", detail=f"fixes from builder: {short(fx, 100)}")
     # all _get_fix definitions in scope are recognised builders
     for m, q, f in funcs:
@@ -566,28 +769,27 @@ def run(chk) -> None:
         for c in walk_local(f):
             if not (isinstance(c, ast.Call) and last_attr(c) == "_handle_segment" and c.args and isinstance(c.args[0], ast.Name)):
                 continue
-            var = c.args[0].id
-            loop = None
-            p_ = getattr(c, "_parent", None)
-            while p_ is not None and p_ is not f:
-                if isinstance(p_, ast.For) and isinstance(p_.target, ast.Name) and p_.target.id == var:
-                    loop = p_
-                    break
-                p_ = getattr(p_, "_parent", None)
-            if loop is None:
-                continue  # the crawl target / a parameter: selected by the crawler
-            n_c += 1
             cfg = cfg or cfg_of(f)
             st = cfg.stmt_of(c)
+            # the segment handed over is a loop variable (directly or through a local)?
+            os_ = origins(cfg, c.args[0], st)
+            if not any(o.kind == "for" for o in os_):
+                continue  # the crawl target / a parameter: selected by the crawler
+            n_c += 1
+            key = _loop_item(cfg, c.args[0], st)
             excluded = set()
-            for e, pol in cfg.conditions(st):
-                if isinstance(e, ast.Call) and last_attr(e) == "is_type" and isinstance(e.func, ast.Attribute) and isinstance(e.func.value, ast.Name) and e.func.value.id == var and not pol:
-                    excluded |= {a.value for a in e.args if isinstance(a, ast.Constant)}
-                if isinstance(e, ast.Attribute) and isinstance(e.value, ast.Name) and e.value.id == var:
-                    if e.attr == "is_comment" and not pol:
-                        excluded.add("comment")
-                    if e.attr == "is_code" and pol:
-                        excluded |= {"comment", "whitespace", "newline"}
+            if key is not None:
+                for e, pol in _conditions(f, st):
+                    if (
+                        isinstance(e, ast.Call) and last_attr(e) == "is_type" and isinstance(e.func, ast.Attribute)
+                        and _loop_item(cfg, e.func.value, cfg.stmt_of(e)) == key and not pol
+                    ):
+                        excluded |= _type_names(chk, f, e, cfg.stmt_of(e))
+                    if isinstance(e, ast.Attribute) and _loop_item(cfg, e.value, cfg.stmt_of(e)) == key:
+                        if e.attr == "is_comment" and not pol:
+                            excluded.add("comment")
+                        if e.attr == "is_code" and pol:
+                            excluded |= {"comment", "whitespace", "newline"}
             missing = [t for t in PROTECTED_CHILD_TYPES if t not in excluded and not (t == "quoted_identifier" and "identifier" in excluded)]
             chk.require(
                 not missing, "R15c", c,
@@ -599,13 +801,132 @@ def run(chk) -> None:
     chk.floor("R15c.child_iteration_sites", 1)
 
 
+def _loop_item(cfg, e: ast.AST, at):
+    """(loop statement, tuple path) when ``e`` is a plain name that can only hold the item of one
+    ``for`` loop (the loop variable itself or a local copy of it)."""
+    if not isinstance(e, ast.Name) or at is None:
+        return None
+    os_ = origins(cfg, e, at)
+    if len(os_) == 1 and os_[0].kind == "for" and os_[0].stmt is not None:
+        return (id(os_[0].stmt), tuple(os_[0].path))
+    return None
+
+
+def _type_names(chk, func, call: ast.Call, at) -> Set[str]:
+    """Type names an ``is_type(...)`` call tests for: string constants, and ``*T`` where T is a
+    tuple of string constants bound once (local, module constant, or class attribute ``self.T``)."""
+    out: Set[str] = set()
+    for a in call.args:
+        if isinstance(a, ast.Constant) and isinstance(a.value, str):
+            out.add(a.value)
+        elif isinstance(a, ast.Starred):
+            v = a.value
+            val = None
+            if isinstance(v, ast.Name):
+                val, _ = _value_of_name(func, v, at)
+            elif isinstance(v, ast.Attribute) and isinstance(v.value, ast.Name) and v.value.id in ("self", "cls"):
+                c = enclosing_class(func)
+                if c is not None:
+                    for _mm, cc in chk.repo.mro(func._module, c):
+                        found = [
+                            item.value for item in cc.body
+                            if (isinstance(item, ast.Assign) and len(item.targets) == 1 and isinstance(item.targets[0], ast.Name) and item.targets[0].id == v.attr)
+                            or (isinstance(item, ast.AnnAssign) and item.value is not None and isinstance(item.target, ast.Name) and item.target.id == v.attr)
+                        ]
+                        if found:
+                            val = found[-1]
+                            break
+            # an immutable display only: a list could have been changed after it was bound
+            if isinstance(val, ast.Tuple) and all(isinstance(x, ast.Constant) and isinstance(x.value, str) for x in val.elts):
+                out |= {x.value for x in val.elts}
+    return out
+
+
 # types whose text must never be re-cased; "identifier" is the super-type of naked and quoted identifiers
 PROTECTED_CHILD_TYPES = ("comment", "quoted_literal", "quoted_identifier")
 
 # ---------------------------------------------------------------------------
 from ..selftest import Variant  # noqa: E402
 
+CP05 = PKG + "CP05.py"
+_CP05_SKIP = "                if seg.is_type(\n                    \"symbol\", \"identifier\", \"quoted_literal\", \"comment\"\n                ) or not seg.is_type(\"raw\"):\n                    continue\n"
+_CP05_SKIP_AND_CALL = _CP05_SKIP + "                res = self._handle_segment(seg, context)\n                if res:\n                    results.append(res)\n"
+_WORD_RX = "\"([^a-zA-Z0-9]+|^)([a-zA-Z0-9])([a-zA-Z0-9]*)\""
+
 VARIANTS = [
+    # behaviour-preserving refactors: must stay quiet
+    Variant(
+        "quiet-cp05-skip-as-two-ifs", CP05,
+        _CP05_SKIP,
+        "                if seg.is_type(\"symbol\", \"identifier\", \"quoted_literal\"):\n                    continue\n                if seg.is_comment or not seg.is_type(\"raw\"):\n                    continue\n",
+        "QUIET", None, "skip split in two tests, comments recognised by is_comment",
+    ),
+    Variant(
+        "quiet-cp05-skip-test-in-boolean-local", CP05,
+        _CP05_SKIP,
+        "                skip = seg.is_type(\n                    \"symbol\", \"identifier\", \"quoted_literal\", \"comment\"\n                ) or not seg.is_type(\"raw\")\n                if skip:\n                    continue\n",
+        "QUIET", None, "R15c: the skip test hoisted into a boolean local",
+    ),
+    Variant(
+        "quiet-cp05-handle-under-positive-test", CP05,
+        _CP05_SKIP_AND_CALL,
+        "                if seg.is_type(\"raw\") and not seg.is_type(\n                    \"symbol\", \"identifier\", \"quoted_literal\", \"comment\"\n                ):\n                    res = self._handle_segment(seg, context)\n                    if res:\n                        results.append(res)\n",
+        "QUIET", None, "R15c: `if skip: continue` respelled as `if not skip: handle` (De Morgan)",
+    ),
+    Variant(
+        "quiet-cp05-skip-types-in-local-tuple", CP05,
+        "            for seg in context.segment.segments:\n                # We don't want to edit symbols, quoted things, identifiers\n                # or comments if they appear.\n                if seg.is_type(\n                    \"symbol\", \"identifier\", \"quoted_literal\", \"comment\"\n                ) or not seg.is_type(\"raw\"):\n",
+        "            untouched = (\"symbol\", \"identifier\", \"quoted_literal\", \"comment\")\n            for seg in context.segment.segments:\n                if seg.is_type(*untouched) or not seg.is_type(\"raw\"):\n",
+        "QUIET", None, "R15c: the protected type names hoisted out of the loop into a tuple, passed with *",
+    ),
+    Variant(
+        "quiet-fix-built-into-local-before-result", CP01,
+        "            return LintResult(\n                anchor=segment,\n                fixes=[self._get_fix(segment, fixed_raw)],\n                memory=memory,",
+        "            fix = self._get_fix(segment, fixed_raw)\n            return LintResult(\n                anchor=segment,\n                fixes=[fix],\n                memory=memory,",
+        "QUIET", None, "R15a: the builder call bound to a local before it goes into fixes=[...]",
+    ),
+    Variant(
+        "quiet-anchor-through-a-local", CP01,
+        "            return LintResult(\n                anchor=segment,\n                fixes=[self._get_fix(segment, fixed_raw)],\n                memory=memory,",
+        "            anchor = segment\n            return LintResult(\n                anchor=anchor,\n                fixes=[self._get_fix(anchor, fixed_raw)],\n                memory=memory,",
+        "QUIET", None, "R15a: anchor/text agreement must be decided on what the anchor local holds, not on its name",
+    ),
+    Variant(
+        "quiet-builder-edit-through-local-and-keywords", CP01,
+        "        return LintFix.replace(segment, [segment.edit(fixed_raw)])\n",
+        "        edited = segment.edit(raw=fixed_raw)\n        return LintFix.replace(anchor_segment=segment, edit_segments=[edited])\n",
+        "QUIET", None, "R15a: the edited copy bound to a local; keyword arguments",
+    ),
+    Variant(
+        "quiet-cp03-override-passes-keywords", PKG + "CP03.py",
+        "        return super()._get_fix(segment, fixed_raw)\n",
+        "        return super()._get_fix(segment=segment, fixed_raw=fixed_raw)\n",
+        "QUIET", None, "R15a: pass-through override with keyword arguments",
+    ),
+    Variant(
+        "quiet-pascal-pattern-hoisted-to-local", CP01,
+        "            fixed_raw = regex.sub(\n                " + _WORD_RX + ",\n                lambda match: match.group(1) + match.group(2).upper() + match.group(3),\n",
+        "            word = " + _WORD_RX + "\n            fixed_raw = regex.sub(\n                word,\n                lambda match: match.group(1) + match.group(2).upper() + match.group(3),\n",
+        "QUIET", None, "R15a: regex pattern read through a local",
+    ),
+    Variant(
+        "quiet-camel-replacement-as-nested-def", CP01,
+        "            fixed_raw = regex.sub(\n                " + _WORD_RX + ",\n                lambda match: match.group(1) + match.group(2).lower() + match.group(3),\n",
+        "            def lower_first(word):\n                return word.group(1) + word.group(2).lower() + word.group(3)\n\n            fixed_raw = regex.sub(\n                " + _WORD_RX + ",\n                lower_first,\n",
+        "QUIET", None, "R15a: replacement lambda turned into a named local function",
+    ),
+    Variant(
+        "quiet-simple-policies-as-flat-elif-chain", CP01,
+        "        if concrete_policy in [\"upper\", \"lower\", \"capitalise\"]:\n            if concrete_policy == \"upper\":\n                fixed_raw = fixed_raw.upper()\n            elif concrete_policy == \"lower\":\n                fixed_raw = fixed_raw.lower()\n            elif concrete_policy == \"capitalise\":\n                fixed_raw = fixed_raw.capitalize()\n        elif concrete_policy == \"pascal\":",
+        "        if concrete_policy == \"upper\":\n            fixed_raw = segment.raw.upper()\n        elif concrete_policy == \"lower\":\n            fixed_raw = segment.raw.lower()\n        elif concrete_policy == \"capitalise\":\n            fixed_raw = segment.raw.capitalize()\n        elif concrete_policy == \"pascal\":",
+        "QUIET", None, "R15a: nested membership test + chain flattened into one chain; initial value inlined",
+    ),
+    Variant(
+        "quiet-native-loop-unpacks-in-body", CP01,
+        "        for leaf_idx, fixed_raw in violations:\n            segment = raw_segments[leaf_idx]\n",
+        "        for found in violations:\n            leaf_idx, fixed_raw = found\n            segment = raw_segments[leaf_idx]\n",
+        "QUIET", None, "R15a: (index, text) pair of the native result unpacked in the loop body instead of the loop header",
+    ),
     Variant(
         "cp05-skip-list-loses-quoted-literal", "src/sqlfluff/rules/capitalisation/CP05.py",
         "\"symbol\", \"identifier\", \"quoted_literal\", \"comment\"",
@@ -617,12 +938,6 @@ VARIANTS = [
         "\"symbol\", \"identifier\", \"quoted_literal\", \"comment\"",
         "\"symbol\", \"identifier\", \"quoted_literal\"",
         "R15c", "CP05", "the defect repaired by 172388f: comments inside a data type were re-cased",
-    ),
-    Variant(
-        "quiet-cp05-skip-as-two-ifs", "src/sqlfluff/rules/capitalisation/CP05.py",
-        "                if seg.is_type(\n                    \"symbol\", \"identifier\", \"quoted_literal\", \"comment\"\n                ) or not seg.is_type(\"raw\"):\n                    continue\n",
-        "                if seg.is_type(\"symbol\", \"identifier\", \"quoted_literal\"):\n                    continue\n                if seg.is_comment or not seg.is_type(\"raw\"):\n                    continue\n",
-        "QUIET", None, "skip split in two tests, comments recognised by is_comment",
     ),
     Variant(
         "upper-branch-also-strips", CP01,
